@@ -49,6 +49,7 @@ pub fn t_from_json(j: &Value) -> T {
         "pow" => T::Pow(sub("a"), n("n") as u32),
         "smtloop" => T::SmtLoop(sub("a"), n("lo") as u32, n("hi") as u32),
         "loop" => T::Loop(sub("a"), n("lo") as u32, if n("hi") < 0 { None } else { Some(n("hi") as u32) }),
+        "quot" => T::Quot(n("c") as u32, sub("a")),
         other => panic!("harness: unknown AST kind {}", other),
     }
 }
@@ -255,6 +256,14 @@ impl Hist {
                 };
                 self.log_mk("mk_loop", &[x], &[*i as i64, j.map(|v| v as i64).unwrap_or(-1)], r, t);
                 r
+            }
+            T::Quot(c, a) => {
+                // not a constructor: the derivative is taken (and cached) but no memo obligation is attached
+                let x = self.build(s, a);
+                match s {
+                    Surface::Mgr(m) => m.char_derivative(x, *c),
+                    Surface::Smt => panic!("harness: no derivative through the wrappers"),
+                }
             }
         }
     }
